@@ -60,6 +60,7 @@ type dbgOutcome struct {
 	entries []dbgEntry
 	report  string
 	panics  []string // panics outside evaluation: compiling, exporting, rendering
+	rerun   string   // "" or how a second / third evaluation with the SAME record differs
 }
 
 // runDebug does what facade Debug does after type checking: DebugCompile, a fresh record in
@@ -111,6 +112,30 @@ func runDebug(eng *engine, d ast.Expr, vals map[string]*val.Val, src string) (o 
 		}()
 		o.report = rcd.Render(src)
 	}()
+	// the DebugCompile protocol: the wrapper clears the record at the start of every run, so the
+	// same closure evaluated again with the SAME record and environment records the same entries
+	for round := 2; round <= 3 && o.rerun == ""; round++ {
+		func() {
+			defer func() {
+				if r := recover(); r != nil {
+					o.rerun = fmt.Sprintf("evaluation #%d with the same record: the bookkeeping panics: %v", round, r)
+				}
+			}()
+			captureStdout(func() {
+				defer func() { recover() }() // a failing evaluation fails again: only the record matters
+				cl(env1.Inherit(eng.renv))
+			})
+			var again []dbgEntry
+			for _, e := range rcd.Entries() {
+				again = append(again, dbgEntry{e.Col, e.V.String()})
+			}
+			if showEntries(again) != showEntries(o.entries) {
+				o.rerun = fmt.Sprintf("evaluation #%d with the same record recorded %s, the first recorded %s", round, showEntries(again), showEntries(o.entries))
+			} else if rep := rcd.Render(src); rep != o.report {
+				o.rerun = fmt.Sprintf("evaluation #%d with the same record renders a different report", round)
+			}
+		}()
+	}
 	if o.class != "" {
 		return
 	}
@@ -407,6 +432,9 @@ func debugCases(eng *engine, vars []envVar, vals map[string]*val.Val, src, tag s
 	w := &dbgWalker{eng: eng, hosts: hosts, env: env1.Inherit(eng.renv)}
 	var completed bool
 	captureStdout(func() { completed = w.walk(d) })
+	if dbg.rerun != "" {
+		oracle("debug-record", dbg.rerun)
+	}
 	if !w.stopped {
 		exp, shifted := collide(w.own)
 		if showEntries(exp) != showEntries(dbg.entries) {
